@@ -10,6 +10,7 @@ pub struct FunctionInfo {
     pub is_recursive: bool,
     pub has_inline: bool,
     pub has_inline_always: bool,
+    pub has_no_gc: bool,
 }
 
 pub struct ProgramAnalysis {
@@ -62,6 +63,12 @@ impl ProgramAnalysis {
         let Some(info) = self.functions.get(name) else {
             return InlineDecision::Skip;
         };
+
+        // a @no_gc function is a region: its body must run between its own EnterNoGc and
+        // ExitNoGc, which only exist in the compiled function, never in an inlined copy
+        if info.has_no_gc {
+            return InlineDecision::Skip;
+        }
 
         if info.is_recursive {
             return InlineDecision::Blocked(BlockReason::Recursive);
@@ -131,6 +138,7 @@ fn analyze_function(func: &TypedFunction) -> FunctionInfo {
 
     let has_inline = func.decorators.iter().any(|d| d.name == "inline");
     let has_inline_always = func.decorators.iter().any(|d| d.name == "inline_always");
+    let has_no_gc = func.decorators.iter().any(|d| d.name == "no_gc");
 
     FunctionInfo {
         body_size: func.body.iter().map(count_stmt_size).sum(),
@@ -140,6 +148,7 @@ fn analyze_function(func: &TypedFunction) -> FunctionInfo {
         is_recursive: false,
         has_inline,
         has_inline_always,
+        has_no_gc,
     }
 }
 
